@@ -358,7 +358,7 @@ def gen_dir(pid, tier):
     return d
 
 
-CHUNK = 2000   # cases per generated .v file: evaluation time per case grows with the size of the list literal
+CHUNK = 600    # cases per generated .v file (evaluated in parallel); evaluation time per case also grows with the size of the list literal
 
 
 def emit_and_eval(exe, name, js):
@@ -386,7 +386,7 @@ def emit_and_eval(exe, name, js):
         if rc != 0:
             return False, None, "harness emit failed: " + out[-2000:]
         return coq_eval_cases(vf)
-    with ThreadPoolExecutor(max_workers=4) as ex:
+    with ThreadPoolExecutor(max_workers=(6 if len(cases) < 8000 else 4)) as ex:   # thorough shards run 8 of these side by side
         res = list(ex.map(one, parts))
     ids, texts = [], []
     for ok, i, t in res:
